@@ -11,6 +11,15 @@ def replay_file(path):
     a = art["artefact"]
     print("property:", art["property"], "\nwhat:", art["what"])
     drv = core.Driver()
+    if "prql" in a and "formatted" in a:
+        # formatter findings: format again with the current tree, re-parse, compare the trees
+        r = drv.req(op="fmt", prql=a["prql"])
+        print("prql:\n" + a["prql"])
+        print("recorded formatting:\n" + str(a.get("formatted")))
+        print("formatter now:\n" + str(r.get("formatted") or r))
+        bad = r.get("ok") and (not r.get("same_tree") or r.get("reparse_errors") or not r.get("idempotent"))
+        print("REPRODUCED (the formatted text does not parse back to the same tree)" if bad else "NOT REPRODUCED (same tree after formatting now)")
+        return 1 if bad else 0
     if "prql" in a:
         tgt = next((f.split(":", 1)[1] for f in a.get("features", []) if f.startswith("target:")), "sql.sqlite")
         r = drv.compile(a["prql"], tgt)
